@@ -106,10 +106,15 @@ SCAN_CONTRACTS = ["contract stub decompress_deflate_stream: Err | Ok with 1 <= c
                   "contract stub skip_gzip_header: Err | Ok after consuming 10..=16 bytes (discharged by k01_gzip_hdr_16)",
                   "contract stub parse_zip_stream: Err | Ok((h, r)) with 30 <= h, h + r.compressed_size <= len (discharged by k01_zip_hdr_34)",
                   "contract stub parse_idat: Err | Ok with 12 <= total_chunk_length <= len (discharged by k01e_idat_total)"]
-H("k01a_scan_tiling_7", "scan_deflate", ["C01", "C05"], unwind=10, timeout=1200, mem_gb=14,
+SCAN_UW = {"next_signature": 10, "signature_hits": 18, "check_tiling": 8, "split_into_deflate_streams": 4, "k01a": 18}
+H("k01a_scan_tiling_8", "scan_deflate", ["C01", "C05"], unwind=6, unwindset=SCAN_UW, timeout=1800, mem_gb=20,
   claim="split_into_deflate_streams never panics and its chunks tile the file exactly (every literal length within the remaining bytes), for every outcome the callees' contracts allow",
-  functions=["scan_deflate::split_into_deflate_streams", "scan_deflate::next_signature"], bounds="every file of exactly 7 bytes x every contract-allowed callee outcome",
-  outside="longer files; the IDAT acceptance branch needs total_chunk_length > 1024 (see k01a_scan_idat_arm)", assumptions=SCAN_CONTRACTS)
+  functions=["scan_deflate::split_into_deflate_streams", "scan_deflate::next_signature"], bounds="every 8-byte file with <= 2 signature look-alikes x every contract-allowed callee outcome",
+  outside="more look-alikes per file; acceptance in the gzip/zip/IDAT arms needs longer files (k01a_scan_tiling_big)", assumptions=SCAN_CONTRACTS)
+H("k01a_scan_tiling_big", "scan_deflate", ["C01", "C05"], unwind=6, unwindset=dict(SCAN_UW, next_signature=1060, k01a=18), timeout=3000, mem_gb=24,
+  claim="as k01a_scan_tiling_8 on a file long enough for every arm to accept (gzip, zip, IDAT run > 1024 bytes), incl. the IDAT look-back right after an accepted stream",
+  functions=["scan_deflate::split_into_deflate_streams", "scan_deflate::next_signature"], bounds="1056-byte files = 16 symbolic bytes (<= 2 signature look-alikes) followed by zeros x every contract-allowed callee outcome",
+  assumptions=SCAN_CONTRACTS)
 H("k01_gzip_hdr_16", "scan_deflate", ["C01", "C05", "C06"], unwind=18, timeout=900,
   claim="skip_gzip_header: Ok or Err, never panics; Ok implies >= 10 bytes consumed, CM == 8, cursor within the input", functions=["scan_deflate::skip_gzip_header"],
   bounds="every input of <= 16 bytes incl. truncated ones (EOF-reporting source), all FLG combinations", assumptions=["input seam SrcEof<N>"])
@@ -123,44 +128,53 @@ H("k01d_idat_desc_rt", "idat_parse", ["C01", "C04"], unwind=7, timeout=900, mem_
   claim="IdatContents::read_from_bytestream(write_to_bytestream(d)) preserves chunk sizes, zlib header and Adler-32",
   functions=["IdatContents::write_to_bytestream", "IdatContents::read_from_bytestream", "write_varint", "read_varint"],
   bounds="every chunk-size vector of length <= 2 with sizes < 2^30 (incl. zero-length chunks), any header/Adler bytes")
-H("k01e_idat_total_27", "idat_parse", ["C01", "C05"], unwind=8, unwindset={"crc32fast.*update": 30, "parse_idat": 4, "recreate_idat": 4, "idat_total": 29},
-  timeout=1500, mem_gb=14,
+H("k01e_idat_total_27", "idat_parse", ["C01", "C05"], unwind=8, unwindset={"update_cheap": 30, "parse_idat": 4, "recreate_idat": 4, "idat_total": 29},
+  timeout=2400, mem_gb=30,
   claim="parse_idat is total (Ok or Err, no panic); Ok implies 12 <= total_chunk_length <= len and recreate_idat reproduces exactly those input bytes",
   functions=["idat_parse::parse_idat", "idat_parse::recreate_idat", "crc32fast shim"], bounds="every input of <= 27 bytes (one or two IDAT chunks, any trailing bytes)",
-  assumptions=["crc32fast replaced by the bit-serial shim (validated natively against the real crate)"])
+  assumptions=["crc32fast::Hasher::update stubbed with a cheap byte mixer (checksum value is not the subject; same function on both sides)"])
+H("k01e_idat_total_20_crc", "idat_parse", ["C01", "C05"], unwind=8, unwindset={"crc32fast.*update": 30, "parse_idat": 4, "recreate_idat": 4, "idat_total": 29}, tier="thorough",
+  timeout=3000, mem_gb=24, claim="as k01e_idat_total_27 with the real CRC-32 (bit-serial shim)", functions=["idat_parse::parse_idat", "idat_parse::recreate_idat", "crc32fast shim"],
+  bounds="every input of <= 20 bytes (one chunk)", assumptions=["crc32fast replaced by the bit-serial shim (validated natively against the real crate)"])
 
 # ---------------------------------------------------------------- container chunks, I/O faults (C01, C13), zstd (C11), C ABI (C12)
 CONT_FUNCS = ["preflate_container::recreated_zlib_chunks", "preflate_container::read_chunk_block", "preflate_container::write_chunk_block",
               "read_varint/write_varint", "std read_exact / write_all loops (real)"]
 H("k01c_literal_chunks_rt", "preflate_container", ["C01", "C13", "C04"], unwind=9, timeout=900, mem_gb=12,
   claim="literal chunks written by write_chunk_block are reproduced verbatim by recreated_zlib_chunks", functions=CONT_FUNCS,
-  bounds="every file of <= 6 bytes split into <= 2 literal chunks at every split point")
-H("k13a_fragmented_io", "preflate_container", ["C13"], unwind=14, timeout=1500, mem_gb=14,
+  bounds="files of 0,1,3,5 symbolic bytes in 1-2 literal chunks (4 concrete shapes (length, split): chunk tags/lengths at concrete offsets)",
+  assumptions=["deflate/PNG arms of read_chunk_block cut by Err stubs (unreachable for literal-only containers; symbolic execution would otherwise enter the whole reconstruction)"])
+K13_UW = {"fragmented_io": 12, "io_faults": 12, "write_varint": 3, "read_varint": 3}
+H("k13a_fragmented_io", "preflate_container", ["C13"], unwind=5, unwindset=K13_UW, timeout=1800, mem_gb=20,
   claim="recreated_zlib_chunks gives the same output for every read fragmentation (1..n bytes per call, up to 2 Interrupted results) and every partial-write pattern",
-  functions=CONT_FUNCS, bounds="all literal containers of a <= 6-byte file in <= 2 chunks x all fragmentations", outside="deflate / IDAT chunks under fragmentation",
+  functions=CONT_FUNCS, bounds="3-byte file (symbolic content) in two literal chunks (1+2) x all fragmentations", outside="deflate / IDAT chunks under fragmentation",
   assumptions=["FragRead / FragWrite: solver-chosen short reads, Interrupted, partial writes"])
-H("k13b_io_faults", "preflate_container", ["C13", "C05"], unwind=14, timeout=1500, mem_gb=14,
+H("k13a_fragmented_io_1chunk", "preflate_container", ["C13"], unwind=5, unwindset=K13_UW, timeout=1800, mem_gb=20,
+  claim="as k13a_fragmented_io for a one-chunk container", functions=CONT_FUNCS, bounds="2-byte file in one literal chunk x all fragmentations", assumptions=["FragRead / FragWrite"])
+H("k13b_io_faults_1chunk", "preflate_container", ["C13", "C05"], unwind=5, unwindset=K13_UW, timeout=1800, mem_gb=20,
+  claim="as k13b_io_faults for a one-chunk container", functions=CONT_FUNCS, bounds="2-byte file in one literal chunk x faults at every offset", assumptions=["FragRead / FragWrite fault injection"])
+H("k13b_io_faults", "preflate_container", ["C13", "C05"], unwind=5, unwindset=K13_UW, timeout=1800, mem_gb=20,
   claim="a hard I/O error at any source or destination offset yields Err without panic, and the bytes accepted so far are a prefix of the original file",
-  functions=CONT_FUNCS, bounds="same containers x fault at every source offset 0..len and every destination offset, combined with fragmentation",
+  functions=CONT_FUNCS, bounds="3-byte file in two literal chunks x fault at every source offset 0..len and every destination offset, combined with fragmentation",
   assumptions=["FragRead / FragWrite fault injection"])
 ZSTD_ASSUME = ["zstd replaced by the framing model in /verif/shims/zstd (FFI cannot be encoded): the claim is about preflate-rs's plumbing given a zstd meeting that contract"]
 H("k11a_zstd_roundtrip", "preflate_container", ["C11", "C01"], unwind=9, timeout=1200, mem_gb=14,
   claim="decompress_zstd(compress_zstd(F), cap) == F when cap >= expanded size and Err when smaller (no truncated Ok, no panic)",
   functions=["compress_zstd", "decompress_zstd", "expand_zlib_chunks", "split_into_deflate_streams", "recreated_zlib_chunks"],
-  bounds="every file of <= 3 bytes x every capacity 0..=16", assumptions=ZSTD_ASSUME)
+  bounds="files of 0, 1 and 3 symbolic bytes x every capacity 0..=16", assumptions=ZSTD_ASSUME + ["analysis and the three header parsers replaced by Err stubs: a file of <= 3 bytes cannot hold a header or an accepted stream (k01_gzip_hdr_16, k01_zip_hdr_34, k01e)"])
 H("k11b_zstd_not_a_frame", "preflate_container", ["C11", "C05"], unwind=12, timeout=1200, mem_gb=14,
-  claim="input that is not a well-formed frame gives Err; well-formed frames with arbitrary content never panic",
-  functions=["decompress_zstd", "recreated_zlib_chunks", "read_chunk_block"], bounds="every input of <= 10 bytes x capacities 0..=16", assumptions=ZSTD_ASSUME)
-ABI_ASSUME = ZSTD_ASSUME + ["Kani models the catch_unwind intrinsic as a plain call of the closure (no unwinding semantics): 'never unwinds' is not decided"]
+  claim="input that is not a well-formed frame gives Err, never a panic",
+  functions=["decompress_zstd"], bounds="every non-frame input of <= 10 bytes x capacities 0..=16", assumptions=ZSTD_ASSUME)
+ABI_ASSUME = ZSTD_ASSUME + ["scratch-copy-only substitution: the import of std::panic::catch_unwind in src/lib.rs is replaced under cfg(kani) by a shim that calls the closure (Kani 0.68 ICEs on the intrinsic; no unwinding semantics): 'never unwinds' is not decided"]
 H("k12a_wrapper_compress", "lib", ["C12"], unwind=9, unwindset={"k12a": 30}, timeout=1200, mem_gb=14,
   claim="WrapperCompressZip: 0 only with *result_size <= capacity (= bytes produced), negative when the buffer is too small, guard bytes on both sides untouched, CBMC pointer checks pass",
-  functions=["WrapperCompressZip", "expand_zlib_chunks"], bounds="every input of <= 3 bytes x every capacity 0..=20", assumptions=ABI_ASSUME)
+  functions=["WrapperCompressZip", "expand_zlib_chunks"], bounds="inputs of 0, 2 and 3 symbolic bytes x every capacity 0..=20", assumptions=ABI_ASSUME)
 H("k12b_wrapper_roundtrip", "lib", ["C12"], unwind=9, unwindset={"k12b": 16}, timeout=1200, mem_gb=14,
   claim="WrapperCompressZip then WrapperDecompressZip returns the file for every sufficient capacity, negative status for every smaller one, never writes outside the buffer",
-  functions=["WrapperCompressZip", "WrapperDecompressZip", "recreated_zlib_chunks"], bounds="every file of <= 3 bytes x every output capacity 0..=6", assumptions=ABI_ASSUME)
+  functions=["WrapperCompressZip", "WrapperDecompressZip", "recreated_zlib_chunks"], bounds="files of 0 and 3 symbolic bytes x every output capacity 0..=6", assumptions=ABI_ASSUME)
 H("k12c_wrapper_decompress_garbage", "lib", ["C12", "C05"], unwind=14, timeout=1200, mem_gb=14,
-  claim="WrapperDecompressZip on arbitrary bytes: returns a status, never writes outside the buffer, 0 implies *result_size <= capacity",
-  functions=["WrapperDecompressZip"], bounds="every input of <= 12 bytes x capacity 0..=4", assumptions=ABI_ASSUME)
+  claim="WrapperDecompressZip on bytes that are not a frame: negative status, nothing written outside the buffer",
+  functions=["WrapperDecompressZip"], bounds="every non-frame input of <= 12 bytes x capacity 0..=4", assumptions=ABI_ASSUME)
 
 # ---------------------------------------------------------------- tree predictor
 H("k05b_tc_len_total", "tree_predictor", ["C05", "C01"], unwind=20,
@@ -187,7 +201,7 @@ H("k02c_tree_mirror", "tree_predictor", ["C02", "C08", "C05"], unwind=8, unwinds
 MODEL_ASSUME = ["model hash chain at the HashChain trait seam: solver-chosen candidate lists (<= 3 per position/offset, any order), same on both sides, update_hash no-op; the real hash tables (hash_chain.rs) are not executed",
                 "parameters symbolic over estimator_range (printed in harness/common.rs)", "valid_reference precondition: the reference's bytes match the text (guaranteed by decode_block)"]
 HOLDER_FUNCS = ["HashChainHolderImpl::calculate_hops", "HashChainHolderImpl::hop_match", "hash_chain_holder::prefix_compare", "PreflateInput::*"]
-HOLDER_UW = {"prefix_compare": 14, "valid_reference": 14, "ModelChain.*any": 14, "calculate_hops": 5, "hop_match": 5, "match_token_offset": 5, "from_fn": 5}
+HOLDER_UW = {"try_from_fn_erased": 16, "prefix_compare": 14, "valid_reference": 14, "ModelChain.*any": 14, "calculate_hops": 5, "hop_match": 5, "match_token_offset": 5, "from_fn": 5}
 for w in ("h3", "h4"):
     H("k02d_hops_inverse_" + w, "hash_chain_holder", ["C02", "C08", "C05"], unwind=6, unwindset=HOLDER_UW, timeout=1800, mem_gb=16,
       claim="if calculate_hops(target) = Ok(h) then hop_match(len, h) = Ok(target.dist) on the same chain; neither panics (%s-byte hash width)" % w[1],
@@ -244,13 +258,26 @@ K4("k04e_rle_long_runs", "tree_predictor", "run-length thresholds (3, 6, 10, 11,
 K4("k04e_ld_ops_equiv", "tree_predictor", "calc_tc_lengths_without_trailing_zeros, calc_codetree_freq and the correction sequence of predict_ld_trees equal the reference build's",
    ["calc_tc_lengths_without_trailing_zeros", "predict_ld_trees", "calc_codetree_freq"], "all 19-entry length vectors; predicted vectors <= 10 with <= 2 RLE items", unwind=21, timeout=1500, mem_gb=14)
 K4("k04f_param_header_equiv", "preflate_parameter_estimator", "PreflateParameters::write emits the same field sequence (order, widths, values) as the reference build", ["PreflateParameters::write"],
-   "every parameter vector in estimator_range with min_len set", unwind=5, timeout=900)
+   "every parameter vector in estimator_range with min_len set", unwind=42, timeout=900)
 K4("k04g_nodict_params_equiv", "preflate_parameter_estimator", "the parameter vector estimated for dictionary-free streams (incl. default block size 16386) equals the reference build's",
-   ["estimate_preflate_parameters (Store / HuffOnly branch)", "extract_preflate_info", "estimate_preflate_strategy", "estimate_preflate_huff_strategy"], "one stored block / one literal-only fixed block (concrete)", unwind=5, timeout=900)
+   ["estimate_preflate_parameters (Store / HuffOnly branch)", "extract_preflate_info", "estimate_preflate_strategy", "estimate_preflate_huff_strategy"], "one stored block / one literal-only fixed block (concrete)", unwind=42, timeout=900, mem_gb=16)
 K4("k04h_cabac_symbols_equiv", "cabac_codec", "binarisation: the (bit, context slot) symbols put on the arithmetic coder for two operations + finish equal the reference build's; encode/decode_difference agree",
-   ["PredictionCabacContext::encode_*", "write_exp_encoded", "flush_encode", "encode_difference", "decode_difference"], "all pairs of operations (3 kinds each), values < 256, widths 1..=8", unwind=18, timeout=1800, mem_gb=16)
+   ["PredictionCabacContext::encode_*", "write_exp_encoded", "flush_encode", "encode_difference", "decode_difference"], "all pairs of operations (3 kinds each), values < 256, widths 1..=8", unwind=18, unwindset={"k04h": 50}, timeout=1800, mem_gb=16)
 K4("k04i_container_bytes_equiv", "preflate_container", "varint bytes, literal chunk framing and IDAT descriptor layout equal the reference build's", ["write_varint", "write_chunk_block (literal)", "IdatContents::write_to_bytestream"],
-   "every u32; literal data <= 3 bytes; <= 2 chunk sizes < 2^28", unwind=8, timeout=900, also=["C01"])
+   "every u32; literal data <= 3 bytes; <= 2 chunk sizes < 2^28", unwind=22, timeout=900, also=["C01"])
+
+# ---------------------------------------------------------------- C06: detection with an offset oracle
+C06_ASSUME = ["decompress_deflate_stream replaced by an offset oracle: accepts (1025 bytes of plaintext) exactly at the true stream start, rejects elsewhere, asserts verify = true",
+              "prefix/suffix: 2 symbolic bytes each; the wrapper's own signature is the only signature look-alike in the file"]
+H("k06a_find_zlib", "scan_deflate", ["C06"], unwind=6, unwindset={"next_signature": 12, "signature_hits": 12}, timeout=1200, mem_gb=16,
+  claim="a stream behind 78 01 / 78 5E / 78 9C / 78 DA is emitted as a DeflateStream chunk starting exactly after the 2-byte header", functions=["split_into_deflate_streams (zlib arm)", "next_signature"],
+  bounds="4 headers x arbitrary 2-byte prefix/suffix", assumptions=C06_ASSUME)
+H("k06b_find_gzip", "scan_deflate", ["C06"], unwind=6, unwindset={"next_signature": 32, "signature_hits": 32, "k06b": 4, "skip_gzip_header": 5}, timeout=1800, mem_gb=20,
+  claim="a stream behind a gzip header with any subset of FEXTRA/FNAME/FCOMMENT/FHCRC is emitted as a DeflateStream chunk starting exactly after the header",
+  functions=["split_into_deflate_streams (gzip arm)", "skip_gzip_header", "next_signature"], bounds="all 16 flag subsets, FEXTRA length 0..=2, name/comment length 0..=2, any mtime/xfl/os bytes", assumptions=C06_ASSUME)
+H("k06c_find_zip", "scan_deflate", ["C06"], unwind=6, unwindset={"next_signature": 42, "signature_hits": 42}, timeout=1800, mem_gb=20,
+  claim="a stream behind a ZIP local file header (method 8) is emitted as a DeflateStream chunk starting exactly after name and extra field",
+  functions=["split_into_deflate_streams (zip arm)", "parse_zip_stream", "ZipLocalFileHeader::create_and_load"], bounds="name/extra lengths 0..=2 each, all other header fields arbitrary", assumptions=C06_ASSUME)
 
 
 def version_gate(dst, verif):
